@@ -346,7 +346,8 @@ def plan(tier, rng, sl, nslices, stats):
                 c["prods"].append([p[0], p[1] + [["T", rng.randrange(c["nt"])]]])
             yield dict(c, parsers=["cnf", "rd"])
         else:
-            yield dict(gcfg.random_case(rng, max_vars=3, max_terms=2, max_prods=6, max_body=3, vcs=["str", "lower", "int"]),
+            yield dict(gcfg.random_case(rng, max_vars=3, max_terms=rng.choice([2, 2, 3]), max_prods=6, max_body=3,
+                                            vcs=["str", "lower", "int", "lookalike", "spaced"]),
                        parsers=["cnf", "rd"] if r == 2 else ["cnf", "ll1"])
     from vf.props import c18
     from vf.props.c14 import nullable_body_case, nullable_tail_case
@@ -410,7 +411,7 @@ def run_case(c, stats):
             core.LOG.discard("no_start")
             return False
         L = ref.words(N)
-        terms = sorted(ref.terminals, key=repr)[:2]
+        terms = sorted(ref.terminals, key=repr)[:3 if c.get("vc") in ("lookalike", "spaced") else 2]
         rec = recursive_variables(ref)
         stats.cls("recursive" if rec else "non_recursive")
         stats.cls("eps_prods" if ref.has_eps_prod() else "eps_free")
